@@ -746,18 +746,42 @@ pub fn build(img: &Image) -> Option<Built> {
     let symtab: Vec<SymL> = symtab_model.map(|s| lay(s, &sym_order)).unwrap_or_default();
     let entry = resolve(&img.entry);
 
+    // ---- notes: a PT_NOTE header points at a well-formed note kept at the end of a free area -----
+    // (offset in segment, length) per extra; the tail of the free area they occupy is not used for
+    // relocation slots
+    let mut reserved: Vec<u64> = vec![0; n];
+    let mut note_at: Vec<Option<(u64, u64)>> = vec![None; img.extras.len()];
+    for (k, e) in img.extras.iter().enumerate() {
+        if e.ptype != PT_NOTE {
+            continue;
+        }
+        let i = e.seg as usize % n;
+        let want = 16 + ((e.len as u64 % 32) & !3);
+        let room = segs[i].fill_len - reserved[i];
+        let mut placed = (segs[i].fill_start, 0); // an empty note segment
+        if room >= want + 4 {
+            let mut off = segs[i].fill_start + room - want;
+            off -= (segs[i].offset + off) % 4;
+            if off >= segs[i].fill_start {
+                reserved[i] = segs[i].fill_start + segs[i].fill_len - off;
+                placed = (off, want);
+            }
+        }
+        note_at[k] = Some(placed);
+    }
+
     // ---- relocation slots -----------------------------------------------------------------------
     let mut used: Vec<Vec<u64>> = vec![Vec::new(); n];
     let mut place = |r: &Reloc| -> Option<RelL> {
         // candidate segments: those whose free area has room for one word
-        let cands: Vec<usize> = (0..n).filter(|i| segs[*i].fill_len >= w).collect();
+        let cands: Vec<usize> = (0..n).filter(|i| segs[*i].fill_len - reserved[*i] >= w).collect();
         if cands.is_empty() {
             return None;
         }
         let start = r.seg as usize % cands.len();
         for k in 0..cands.len() {
             let i = cands[(start + k) % cands.len()];
-            let nslots = segs[i].fill_len / w;
+            let nslots = (segs[i].fill_len - reserved[i]) / w;
             if (used[i].len() as u64) < nslots {
                 let mut sl = r.slot as u64 % nslots;
                 while used[i].contains(&sl) {
@@ -812,6 +836,19 @@ pub fn build(img: &Image) -> Option<Built> {
         let seed = img.segs[c.seg].seed as u64;
         let data: Vec<u8> = (0..c.size).map(|k| 1 + ((k * 131 + seed * 7 + (k >> 8) * 17) % 255) as u8).collect();
         blit(c.off, &data);
+    }
+    for (k, e) in img.extras.iter().enumerate() {
+        if let Some((off, len)) = note_at[k] {
+            if len >= 16 {
+                let mut b = Vec::new();
+                enc.u32(&mut b, 4); // namesz
+                enc.u32(&mut b, (len - 16) as u32); // descsz
+                enc.u32(&mut b, 1); // type
+                b.extend_from_slice(b"GNU\0");
+                b.extend((0..len - 16).map(|x| (x as u8).wrapping_mul(29) ^ 0x5a));
+                blit(segs[e.seg as usize % n].offset + off, &b);
+            }
+        }
     }
     let off_of_addr = |a: u64| -> Option<u64> {
         for s in &segs {
@@ -995,8 +1032,13 @@ pub fn build(img: &Image) -> Option<Built> {
             Ph::Extra(k) => {
                 let e = &img.extras[k];
                 let s = &segs[e.seg as usize % n];
-                let off = e.pos as u64 % (s.filesz + 1);
-                let len = (e.len as u64).min(s.filesz - off);
+                let (off, len) = match note_at[k] {
+                    Some(p) => p,
+                    None => {
+                        let off = e.pos as u64 % (s.filesz + 1);
+                        (off, (e.len as u64).min(s.filesz - off))
+                    }
+                };
                 let mem_extra = if e.ptype == PT_TLS { e.mem_extra as u64 } else { 0 };
                 (e.ptype, e.flags & 7, s.offset + off, s.vaddr + off, len, len + mem_extra, 4)
             }
@@ -1012,6 +1054,7 @@ pub fn build(img: &Image) -> Option<Built> {
                 Ph::Load(_) => PAGE,
                 Ph::Stack => 16,
                 Ph::Interp => 1,
+                _ if p.ptype == PT_NOTE => 4,
                 _ => w,
             };
             let paddr = if p.ptype == PT_GNU_STACK {
